@@ -65,9 +65,13 @@ def build_factor(desc, fid, built):
                 args = []
                 for dct, ix in zip(dicts, idxs):
                     vals = []
-                    for off in range(1 - width, 1):
-                        n = dct[off]
-                        vals.append(None if n is None else ix[n])
+                    if width == 1 and not isinstance(dct, dict):
+                        # a window of width 1 receives the level name itself, not a dictionary of offsets
+                        vals.append(None if dct is None else ix[dct])
+                    else:
+                        for off in range(1 - width, 1):
+                            n = dct[off]
+                            vals.append(None if n is None else ix[n])
                     args.append(vals)
                 return bool(table[window_key(fs, w, args)])
         return pred
@@ -144,12 +148,18 @@ def _build_block(desc, b, built, shared=None):
     if k == "cross":
         return sp.CrossBlock(F(b["design"]), F(b["crossing"]), cs, b["rcc"])
     if k == "multicross":
+        if b.get("as_strings"):
+            # the documented string spellings of mode and alignment instead of the enum members
+            return sp.MultiCrossBlock(F(b["design"]), [F(c) for c in b["crossings"]], cs, b["rcc"],
+                                      mode=b["mode"], alignment=b["align"])
         return sp.MultiCrossBlock(F(b["design"]), [F(c) for c in b["crossings"]], cs, b["rcc"],
                                   mode=MODES[b["mode"]], alignment=ALIGNS[b["align"]])
     if k == "repeat":
         return sp.Repeat(build_block(desc, b["b"], built, shared), cs)
     if k == "merge":
         al = ALIGNS[b["align"]] if b.get("align") else None
+        if b.get("as_strings"):
+            return sp.Merge([build_block(desc, x, built, shared) for x in b["bs"]], cs, mode=b["mode"], alignment=b.get("align"))
         if b.get("defaults"):
             # the library's own defaults for mode and alignment (what `Merge([b])` in the documentation means)
             return sp.Merge([build_block(desc, x, built, shared) for x in b["bs"]], cs)
